@@ -52,15 +52,15 @@ type opPlan struct {
 }
 
 type groupScenario struct {
-	Cfg     limitsCfg   `json:"cfg"`
-	Text    string      `json:"text"`
-	Workers int         `json:"workers"`
-	NIP     int         `json:"n_ip"`
-	NSrc    int         `json:"n_src"`
-	NDest   int         `json:"n_dest"`
-	Plans   [][]opPlan  `json:"plans"`
-	Yield   yieldMode   `json:"yield"`
-	Monitor bool        `json:"monitor"`
+	Cfg     limitsCfg  `json:"cfg"`
+	Text    string     `json:"text"`
+	Workers int        `json:"workers"`
+	NIP     int        `json:"n_ip"`
+	NSrc    int        `json:"n_src"`
+	NDest   int        `json:"n_dest"`
+	Plans   [][]opPlan `json:"plans"`
+	Yield   yieldMode  `json:"yield"`
+	Monitor bool       `json:"monitor"`
 }
 
 func ipKey(i int) net.IP { return net.IPv4(10, byte(i>>16), byte(i>>8), byte(i)) }
@@ -283,6 +283,9 @@ func (pb *prober) probeMsg(scope string, ip net.IP, src string) bool {
 	if m == 0 {
 		return true
 	}
+	// A refusal below m is attributed to `scope`: probeAll has verified the
+	// global scope before, and the other per-key scopes see fresh keys. A grant
+	// above m is attributed to the scope whose N equals m.
 	binding := scope
 	if nAll != 0 && (nS == 0 || nAll < nS) {
 		binding = scAll
@@ -307,9 +310,9 @@ func (pb *prober) probeMsg(scope string, ip net.IP, src string) bool {
 		for k := 0; k < m; k++ {
 			i, s := pick()
 			if err := mustTake(func(ctx context.Context) error { return pb.g.TakeMsg(ctx, i, s) }); err != nil {
-				pb.c.Violation("quiescent/fewer-than-limit-grantable/scope="+binding+"/via="+pb.layer,
-					fmt.Sprintf("no delivery holds a permit, yet only %d of %d permits of scope %q could be acquired (%v)", k, m, binding, err),
-					map[string]any{"granted": k, "limit": m, "error": err.Error(), "scenario": pb.wit})
+				pb.c.Violation("quiescent/fewer-than-limit-grantable/scope="+scope+"/via="+pb.layer,
+					fmt.Sprintf("no delivery holds a permit, yet only %d of %d permits could be acquired with a fixed %q key and fresh keys elsewhere (%v)", k, m, scope, err),
+					map[string]any{"granted": k, "limit": m, "ip": i.String(), "source": s, "error": err.Error(), "scenario": pb.wit})
 				ok = false
 				break
 			}
